@@ -320,6 +320,17 @@ def work_integration(chunk):
         elif hist == "stopped-and-continued":
             m.project.simulate(max_time=2, absence_time_list=list(absence))
             m.project.simulate(max_time=40, absence_time_list=list(absence), initialize_state_info=False, initialize_log_info=False)
+        elif hist == "team-formed-at-the-stop":
+            # at the stop the last worker of the first team moves into a newly founded team with the same assignment; the run is continued
+            m.project.simulate(max_time=2, absence_time_list=list(absence))
+            old = m.project.organization.team_list[0]
+            new = BaseTeam("TMN", ID="TMN")
+            w = old.worker_list[-1]
+            old.worker_list.remove(w)
+            new.add_worker(w)
+            new.extend_targeted_task_list(list(old.targeted_task_list))
+            m.project.organization.team_list.append(new)
+            m.project.simulate(max_time=40, absence_time_list=list(absence), initialize_state_info=False, initialize_log_info=False)
         else:
             m.project.simulate(max_time=40, absence_time_list=list(absence))
         if remove:
@@ -332,6 +343,23 @@ def work_integration(chunk):
         key = ("integration", repr(sp["links"]), tuple(absence), remove, hist)
         col.states.add(hash(key))
         col.nontrivial.add(hash(key))
+        # the state queries on the real result: every single step and every pair of neighbouring steps, against the members' own logs
+        p_ = m.project
+        groups = [(tm.ID, tm.worker_list, ((tm.extract_free_worker_list, 0), (tm.extract_working_worker_list, 1))) for tm in p_.organization.team_list]
+        groups += [(wp.ID, wp.facility_list, ((wp.extract_free_facility_list, 0), (wp.extract_working_facility_list, 1))) for wp in p_.organization.workplace_list]
+        groups.append(("workflow", p_.workflow.task_list, ((p_.workflow.extract_none_task_list, 0), (p_.workflow.extract_ready_task_list, 1), (p_.workflow.extract_working_task_list, 2), (p_.workflow.extract_finished_task_list, -1))))
+        for gname, members, queries in groups:
+            for fn, code in queries:
+                for times in [[t] for t in range(nlog)] + [[t, t + 1] for t in range(nlog - 1)]:
+                    want = sorted(x.ID for x in members if all(t < len(x.state_record_list) and int(x.state_record_list[t]) == code for t in times))
+                    try:
+                        got = sorted(x.ID for x in fn(times))
+                    except Exception as e:
+                        got = "raised %s" % type(e).__name__
+                    col.checks["c19.extract-on-results"] += 1
+                    if got != want:
+                        col.violation(viol("C19:extract-on-simulated-result-wrong:%s" % fn.__name__, {"kind": "integration", "spec": sp, "absence": list(absence), "removed": remove, "history": hist, "container": gname,
+                                                                                                     "times": times, "got": got, "expected": want}))
         if nlog >= 1 and init + (nlog - 1) * unit != last:
             col.violation(viol("C19:set_last_datetime-last-logged-step-not-on-given-date", {"kind": "integration", "spec": sp, "absence": list(absence), "removed": remove, "history": hist, "time": m.project.time, "logged_steps": nlog,
                                                                                            "last_step_date": str(init + (nlog - 1) * unit), "requested": str(last)}))
@@ -383,7 +411,7 @@ def run(tier, seed):
         for ab in ((), (1,), (0, 2), (1, 20, 21), (2, 2)):
             for rm in (False, True):
                 integ.append((sp, ab, rm))
-        for hist in ("appended", "resumed-with-fresh-logs", "stopped-and-continued"):
+        for hist in ("appended", "resumed-with-fresh-logs", "stopped-and-continued", "team-formed-at-the-stop"):
             integ.append((sp, (), False, hist))
             integ.append((sp, (1,), False, hist))
         for ab in ((1, 3), (2, 5), (1, 2, 6), (4, 5), (0, 2)):
@@ -405,7 +433,9 @@ def run(tier, seed):
 def replay(v):
     d = v["detail"]
     kind = d.get("kind")
-    if "long-logs" in v["sig"]:
+    if "extract-on-simulated-result" in v["sig"]:
+        col = work_integration([(d["spec"], tuple(d["absence"]), d["removed"], d.get("history"))])
+    elif "long-logs" in v["sig"]:
         col = work_extract_long([kind])
     elif "extract" in v["sig"]:
         col = work_extract([(kind, len(d["logs"]), max([len(x) for x in d["logs"]] + [1]))])
